@@ -1,291 +1,209 @@
-import SJ.Spec.Json
-import SJ.Proofs.TrimEdge
-import SJ.Proofs.Number
+import SJ.Proofs.SpecTrimFuel
 /-
 `Spec.containerText` and JSON white space at the two ends of the text.
 
-What is true and proved here (see the end of the file):
+Proved here (`a`, `b` are texts of JSON white space only):
 * `containerText_ws_accept_iff` : `containerText (a ++ s ++ b) = .accept v ↔ containerText s = .accept v`
 * `containerText_ws_outside`    : `containerText s = .outside → containerText (a ++ s ++ b) = .outside`
-* the same two for `TrimEdge.jsonTrimL`
+* `containerText_ws_reject`     : `containerText (a ++ s ++ b) = .reject → containerText s = .reject`
+* `containerText_trim_accept`, `containerText_trim_outside`, `containerText_trim_reject` : the same for
+  `TrimEdge.jsonTrimL`
 * `containerText_ws_not_eq`     : the plain equation `containerText (a ++ s ++ b) = containerText s` is FALSE.
-  `Spec.elements (f+1) s` runs `Spec.value f` on the *same* text, so every unclosed `[` costs two units of
-  fuel for one byte; `containerText` starts with `s.length + 2`.  On `[[[[["\xFF"` the fuel runs out before the
+  `Spec.elements (f+1) s` runs `Spec.value f` on the *same* text, so every unclosed `[` costs two units of fuel
+  for one byte, and `containerText` starts with `s.length + 2`.  On `[[[[["\xFF"` the fuel runs out before the
   (non-UTF-8) string is reached: `reject`; ten more bytes of white space buy the missing fuel: `outside`.
-  Accepted texts are balanced, the fuel always suffices for them, hence only reject ↔ outside can flip.
+  Accepted texts are balanced and the fuel always covers them, hence only reject ↔ outside can flip.
+
+Helper files: `SpecTrimBase` (white space, numbers, literals), `SpecTrimStr` (strings), `SpecTrimLoc`
+(white space behind the text: `loc`), `SpecTrimFuel` (change of fuel: `fuelOK`).
 -/
 namespace SJ.SpecTrim
-open SJ SJ.Spec SJ.NumberProofs
+open SJ SJ.Spec
 
-/-! ## 0. bytes, white space -/
+/-! ## 7. the text -/
 
-theorem forall_u8 {P : UInt8 → Prop} (h : ∀ n : Fin 256, P (UInt8.ofNat n.val)) (b : UInt8) : P b := by
-  have := h ⟨b.toNat, b.toNat_lt⟩
-  simpa using this
+/-- what `containerText` makes of the outcome of the root value -/
+def verdict : Out JVal → Verdict
+  | .acc v rest => if (skipWs rest).isEmpty then .accept v else .reject
+  | .rej => .reject
+  | .out => .outside
 
-/-- everything the recursive descent ever asks about a byte is answered "no" by a white-space byte,
-    except: `0x20` is an ordinary string character, the others are control characters -/
-theorem ws_facts : ∀ c : UInt8, isWs c = true →
-    (c == 0x7B) = false ∧ (c == 0x5B) = false ∧ (c == 0x22) = false ∧ (c == 0x74) = false ∧ (c == 0x66) = false ∧
-    (c == 0x6E) = false ∧ (c == 0x2D) = false ∧ Spec.isDigit c = false ∧ c ≠ 0x5D ∧ c ≠ 0x7D ∧ c ≠ 0x2C ∧ c ≠ 0x3A ∧
-    c ≠ 0x2E ∧ c ≠ 0x2B ∧ c ≠ 0x2D ∧ (c == 0x65) = false ∧ (c == 0x45) = false ∧ c ≠ 0x5C ∧ c ≠ 0x22 ∧
-    hexVal c = none ∧ c < 0x80 ∧ (c = 0x20 ∨ c < 0x20) :=
-  forall_u8 (by decide +kernel)
+theorem containerText_nil {s : List UInt8} (h : skipWs s = []) : containerText s = .reject := by
+  unfold containerText; rw [h]
 
-theorem ws_cases : ∀ c : UInt8, isWs c = true → c = 0x20 ∨ c = 0x09 ∨ c = 0x0A ∨ c = 0x0D :=
-  forall_u8 (by decide +kernel)
-
-/-- the text is empty or starts with white space -/
-def WsHead (b : List UInt8) : Prop := ∀ c t, b = c :: t → isWs c = true
-
-theorem wsHead_of_all {b : List UInt8} (hb : b.all isWs = true) : WsHead b := by
-  intro c t h; subst h
-  simp only [List.all_cons, Bool.and_eq_true] at hb
-  exact hb.1
-
-theorem skipWs_length : ∀ s : List UInt8, (skipWs s).length ≤ s.length
-  | [] => by simp [skipWs]
-  | c :: r => by
-    rw [skipWs]
-    split
-    · have := skipWs_length r; simp only [List.length_cons]; omega
-    · exact Nat.le_refl _
-
-theorem skipWs_all : ∀ {b : List UInt8}, b.all isWs = true → skipWs b = []
-  | [], _ => rfl
-  | c :: r, h => by
-    simp only [List.all_cons, Bool.and_eq_true] at h
-    rw [skipWs, if_pos h.1]
-    exact skipWs_all h.2
-
-theorem all_of_skipWs_nil : ∀ {b : List UInt8}, skipWs b = [] → b.all isWs = true
-  | [], _ => rfl
-  | c :: r, h => by
-    rw [skipWs] at h
-    split at h
-    · rename_i hc; simp only [List.all_cons, hc, Bool.true_and]; exact all_of_skipWs_nil h
-    · cases h
-
-theorem skipWs_head : ∀ (s : List UInt8) (c : UInt8) (r : List UInt8), skipWs s = c :: r → isWs c = false
-  | [], _, _, h => by cases h
-  | x :: s, c, r, h => by
-    rw [skipWs] at h
-    split at h
-    · exact skipWs_head s c r h
-    · rename_i hx; cases h; simpa using hx
-
-/-- white space in front is skipped -/
-theorem skipWs_pre : ∀ {a : List UInt8} (s : List UInt8), a.all isWs = true → skipWs (a ++ s) = skipWs s
-  | [], _, _ => rfl
-  | c :: a, s, h => by
-    simp only [List.all_cons, Bool.and_eq_true] at h
-    rw [List.cons_append, skipWs, if_pos h.1]
-    exact skipWs_pre s h.2
-
-/-- white space behind: nothing changes as long as something else comes first -/
-theorem skipWs_app_cons : ∀ (s : List UInt8) (b : List UInt8) (c : UInt8) (r : List UInt8),
-    skipWs s = c :: r → skipWs (s ++ b) = c :: (r ++ b)
-  | [], _, _, _, h => by cases h
-  | x :: s, b, c, r, h => by
-    rw [skipWs] at h
-    rw [List.cons_append, skipWs]
-    split
-    · rename_i hx; rw [if_pos hx] at h; exact skipWs_app_cons s b c r h
-    · rename_i hx; rw [if_neg hx] at h; cases h; rfl
-
-theorem skipWs_app_nil {s b : List UInt8} (hb : b.all isWs = true) (h : skipWs s = []) : skipWs (s ++ b) = [] := by
-  apply skipWs_all
-  rw [List.all_append, all_of_skipWs_nil h, hb]; rfl
-
-/-! ## 1. outcomes up to a suffix -/
-
-/-- the second outcome is the first one with `b` appended to the rest -/
-def Same {α : Type} (b : List UInt8) : Out α → Out α → Prop
-  | .acc v r, .acc v' r' => v = v' ∧ r' = r ++ b
-  | .rej, .rej => True
-  | .out, .out => True
-  | _, _ => False
-
-theorem same_rej {α : Type} (b : List UInt8) : Same b (Out.rej : Out α) .rej := trivial
-theorem same_out {α : Type} (b : List UInt8) : Same b (Out.out : Out α) .out := trivial
-theorem same_acc {α : Type} (b : List UInt8) (v : α) (r : List UInt8) : Same b (Out.acc v r) (.acc v (r ++ b)) := ⟨rfl, rfl⟩
-
-theorem same_of_eq {α : Type} {b : List UInt8} {x y z : Out α} (h : Same b x y) (e : y = z) : Same b x z := e ▸ h
-
-/-! ## 2. the scalar productions -/
-
-theorem tw_app {T : List UInt8} (hT : WsHead T) : ∀ s : List UInt8,
-    (s ++ T).takeWhile SJ.isDigit = s.takeWhile SJ.isDigit ∧
-    (s ++ T).dropWhile SJ.isDigit = s.dropWhile SJ.isDigit ++ T
-  | [] => by
-    cases T with
-    | nil => simp
-    | cons c t =>
-      have hd : SJ.isDigit c = false := (ws_facts c (hT c t rfl)).2.2.2.2.2.2.2.1
-      simp [List.takeWhile, List.dropWhile, hd]
-  | c :: s => by
-    have ih := tw_app hT s
-    by_cases hc : SJ.isDigit c = true
-    · simp [List.takeWhile, List.dropWhile, hc, ih.1, ih.2]
-    · simp [List.takeWhile, List.dropWhile, hc]
-
-theorem specFrac_app {T : List UInt8} (hT : WsHead T) (s : List UInt8) :
-    specFrac (s ++ T) = ((specFrac s).1, (specFrac s).2.1 ++ T, (specFrac s).2.2) := by
-  cases s with
-  | nil =>
-    cases T with
-    | nil => rfl
-    | cons c t =>
-      have hc : c ≠ 0x2E := (ws_facts c (hT c t rfl)).2.2.2.2.2.2.2.2.2.2.2.2.1
-      unfold specFrac
-      simp only [List.nil_append]
-      split
-      · rename_i h; exact absurd (List.cons.inj h).1 hc
-      · rfl
-  | cons c r =>
-    by_cases hc : c = 0x2E
-    · subst hc
-      simp only [List.cons_append, specFrac, (tw_app hT r).1, (tw_app hT r).2]
-      split <;> simp
-    · unfold specFrac
-      simp only [List.cons_append]
-      split
-      · rename_i h; exact absurd (List.cons.inj h).1 hc
-      · split
-        · rename_i h; exact absurd (List.cons.inj h).1 hc
-        · rfl
-
-theorem pmSign_app {T : List UInt8} (hT : WsHead T) (r : List UInt8) :
-    pmSign (r ++ T) = ((pmSign r).1, (pmSign r).2 ++ T) := by
-  have key : ∀ (c : UInt8) (t : List UInt8), c ≠ 0x2B → c ≠ 0x2D → pmSign (c :: t) = (false, c :: t) := by
-    intro c t h1 h2
-    unfold pmSign
-    split
-    · rename_i h; exact absurd (List.cons.inj h).1 h1
-    · rename_i h; exact absurd (List.cons.inj h).1 h2
-    · rfl
-  cases r with
-  | nil =>
-    cases T with
-    | nil => rfl
-    | cons c t =>
-      have hw := ws_facts c (hT c t rfl)
-      rw [List.nil_append, key c t hw.2.2.2.2.2.2.2.2.2.2.2.2.2.1 hw.2.2.2.2.2.2.2.2.2.2.2.2.2.2.1]
-      rfl
-  | cons c r =>
-    by_cases h1 : c = 0x2B
-    · subst h1; rfl
-    · by_cases h2 : c = 0x2D
-      · subst h2; rfl
-      · rw [List.cons_append, key c _ h1 h2, key c _ h1 h2]; rfl
-
-theorem specExp_app {T : List UInt8} (hT : WsHead T) (s : List UInt8) :
-    specExp (s ++ T) = ((specExp s).1, (specExp s).2.1 ++ T, (specExp s).2.2) := by
-  cases s with
-  | nil =>
-    cases T with
-    | nil => rfl
-    | cons c t =>
-      have hw := ws_facts c (hT c t rfl)
-      simp only [List.nil_append, specExp, hw.2.2.2.2.2.2.2.2.2.2.2.2.2.2.2.1, hw.2.2.2.2.2.2.2.2.2.2.2.2.2.2.2.2.1]
-      simp
-  | cons c r =>
-    simp only [List.cons_append, specExp, pmSign_app hT r, (tw_app hT _).1, (tw_app hT _).2]
-    split
-    · split <;> simp
-    · simp
-
-theorem specBody_app {T : List UInt8} (hT : WsHead T) (neg : Bool) (s : List UInt8) :
-    specBody neg (s ++ T) = (specBody neg s).map (fun lr => (lr.1, lr.2 ++ T)) := by
-  unfold specBody
-  simp only [(tw_app hT s).1, (tw_app hT s).2, specFrac_app hT, specExp_app hT]
+theorem containerText_cons {s : List UInt8} {c : UInt8} {r : List UInt8} (h : skipWs s = c :: r) :
+    containerText s = if c == 0x7B ∨ c == 0x5B then verdict (value (s.length + 2) (c :: r)) else .reject := by
+  unfold containerText; rw [h]
+  simp only []
   split
+  · cases value (s.length + 2) (c :: r) <;> rfl
   · rfl
-  · split
-    · rfl
-    · split
-      · rfl
-      · rfl
 
-theorem specSign_app {T : List UInt8} (hT : WsHead T) (s : List UInt8) :
-    specSign (s ++ T) = ((specSign s).1, (specSign s).2 ++ T) := by
-  cases s with
+theorem verdict_accept {o : Out JVal} {v : JVal} : verdict o = .accept v ↔ ∃ rest, o = .acc v rest ∧ skipWs rest = [] := by
+  cases o with
+  | acc w rest =>
+    simp only [verdict]
+    constructor
+    · intro h
+      split at h
+      · rename_i he
+        cases h
+        exact ⟨rest, rfl, by simpa using he⟩
+      · cases h
+    · rintro ⟨rest', h, hs⟩
+      cases h
+      rw [hs]; rfl
+  | rej => simp [verdict]
+  | out => simp [verdict]
+
+theorem verdict_outside {o : Out JVal} : verdict o = .outside ↔ o = .out := by
+  cases o with
+  | acc w rest =>
+    simp only [verdict]
+    constructor
+    · intro h; split at h <;> cases h
+    · intro h; cases h
+  | rej => simp [verdict]
+  | out => simp [verdict]
+
+theorem same_acc_right {b : List UInt8} {x : Out JVal} {v : JVal} {R : List UInt8} (h : Same b x (.acc v R)) :
+    ∃ rest, x = .acc v rest ∧ R = rest ++ b := by
+  cases x with
+  | acc w rest => obtain ⟨rfl, rfl⟩ := h; exact ⟨rest, rfl, rfl⟩
+  | rej => exact absurd h id
+  | out => exact absurd h id
+
+theorem same_acc_left {b : List UInt8} {y : Out JVal} {v : JVal} {rest : List UInt8} (h : Same b (.acc v rest) y) :
+    y = .acc v (rest ++ b) := by
+  cases y with
+  | acc w R => obtain ⟨rfl, rfl⟩ := h; rfl
+  | rej => exact absurd h id
+  | out => exact absurd h id
+
+theorem same_out_left {b : List UInt8} {y : Out JVal} (h : Same b .out y) : y = .out := by
+  cases y with
+  | acc w R => exact absurd h id
+  | rej => exact absurd h id
+  | out => rfl
+
+/-- JSON white space around the text does not change whether, and as what, the text is accepted -/
+theorem containerText_ws_accept_iff (a s b : List UInt8) (ha : a.all isWs = true) (hb : b.all isWs = true) (v : JVal) :
+    containerText (a ++ s ++ b) = .accept v ↔ containerText s = .accept v := by
+  have hpre : skipWs (a ++ s ++ b) = skipWs (s ++ b) := by rw [List.append_assoc]; exact skipWs_pre _ ha
+  cases hs : skipWs s with
   | nil =>
-    cases T with
-    | nil => rfl
-    | cons c t =>
-      have hw := ws_facts c (hT c t rfl)
-      rw [List.nil_append, specSign_pos _ (fun r h => hw.2.2.2.2.2.2.2.2.2.2.2.2.2.2.1 (List.cons.inj h).1)]
-      rfl
+    rw [containerText_nil hs, containerText_nil (hpre.trans (skipWs_app_nil hb hs))]
   | cons c r =>
-    by_cases h2 : c = 0x2D
-    · subst h2; rfl
-    · rw [List.cons_append, specSign_pos _ (fun r h => h2 (List.cons.inj h).1),
-        specSign_pos _ (fun r h => h2 (List.cons.inj h).1)]
-      rfl
+    have hsb : skipWs (a ++ s ++ b) = c :: (r ++ b) := hpre.trans (skipWs_app_cons s b c r hs)
+    rw [containerText_cons hs, containerText_cons hsb]
+    have hlen : (c :: r).length ≤ s.length := hs ▸ skipWs_length s
+    split
+    · rw [verdict_accept, verdict_accept]
+      constructor
+      · rintro ⟨R, hv, hR⟩
+        obtain ⟨rest, hx, rfl⟩ := same_acc_right (hv ▸ (loc hb _).v (c :: r))
+        have hrest : skipWs rest = [] := by
+          apply skipWs_all
+          have := all_of_skipWs_nil hR
+          rw [List.all_append, Bool.and_eq_true] at this
+          exact this.1
+        exact ⟨rest, ((fuelOK _).va _ _ _ hx).2 _ (Or.inr (by omega)), hrest⟩
+      · rintro ⟨rest, hv, hrest⟩
+        have h1 := same_acc_left (hv ▸ (loc hb _).v (c :: r))
+        refine ⟨rest ++ b, ((fuelOK _).va _ _ _ h1).2 _ (Or.inl ?_), skipWs_app_nil hb hrest⟩
+        simp only [List.length_append]; omega
+    · exact Iff.rfl
 
-/-- a number is the same number when white space (or nothing) follows -/
-theorem numberLit_app {T : List UInt8} (hT : WsHead T) (s : List UInt8) :
-    Spec.numberLit (s ++ T) = (Spec.numberLit s).map (fun lr => (lr.1, lr.2 ++ T)) := by
-  rw [numberLit_eq, numberLit_eq, specSign_app hT, specBody_app hT]
+/-- more white space never brings a text back inside the claim -/
+theorem containerText_ws_outside (a s b : List UInt8) (ha : a.all isWs = true) (hb : b.all isWs = true)
+    (h : containerText s = .outside) : containerText (a ++ s ++ b) = .outside := by
+  have hpre : skipWs (a ++ s ++ b) = skipWs (s ++ b) := by rw [List.append_assoc]; exact skipWs_pre _ ha
+  cases hs : skipWs s with
+  | nil => rw [containerText_nil hs] at h; cases h
+  | cons c r =>
+    have hsb : skipWs (a ++ s ++ b) = c :: (r ++ b) := hpre.trans (skipWs_app_cons s b c r hs)
+    rw [containerText_cons hs] at h
+    rw [containerText_cons hsb]
+    split
+    · rename_i hc
+      rw [if_pos hc, verdict_outside] at h
+      rw [verdict_outside]
+      have h1 := same_out_left (h ▸ (loc hb _).v (c :: r))
+      refine (fuelOK _).vo _ h1 _ ?_
+      simp only [List.length_append]; omega
+    · rename_i hc
+      rw [if_neg hc] at h; cases h
 
-/-- a number has at least one byte -/
-theorem numberLit_len {s : List UInt8} {l : NumLit} {r : List UInt8} (h : Spec.numberLit s = some (l, r)) :
-    r.length < s.length := by
-  obtain ⟨x, hx, hs, _⟩ := shape_of_spec h
-  have := render_length x
-  have hne : 0 < x.ip.length := List.length_pos_iff.mpr hx.ne
-  rw [hs, List.length_append]
-  omega
+/-- hence a text rejected with white space around it is rejected without -/
+theorem containerText_ws_reject (a s b : List UInt8) (ha : a.all isWs = true) (hb : b.all isWs = true)
+    (h : containerText (a ++ s ++ b) = .reject) : containerText s = .reject := by
+  cases hs : containerText s with
+  | accept v => rw [(containerText_ws_accept_iff a s b ha hb v).mpr hs] at h; cases h
+  | reject => rfl
+  | outside => rw [containerText_ws_outside a s b ha hb hs] at h; cases h
 
-theorem isPrefixOf_app : ∀ (name s b : List UInt8), (∀ x ∈ name, isWs x = false) → WsHead b →
-    name.isPrefixOf (s ++ b) = name.isPrefixOf s
-  | [], _, _, _, _ => by simp
-  | n :: ns, [], b, hn, hb => by
-    cases b with
-    | nil => rfl
-    | cons x b' =>
-      have hx := hb x b' rfl
-      have : (n == x) = false := by
-        apply beq_false_of_ne
-        intro e; subst e
-        rw [hn n (List.mem_cons_self)] at hx; cases hx
-      simp [List.isPrefixOf, this]
-  | n :: ns, c :: s, b, hn, hb => by
-    simp only [List.cons_append, List.isPrefixOf]
-    rw [isPrefixOf_app ns s b (fun x hx => hn x (List.mem_cons_of_mem _ hx)) hb]
+/-! ## 8. `jsonTrimL` -/
 
-theorem isPrefixOf_length : ∀ (name s : List UInt8), name.isPrefixOf s = true → name.length ≤ s.length
-  | [], _, _ => by simp
-  | n :: ns, [], h => by simp [List.isPrefixOf] at h
-  | n :: ns, c :: s, h => by
-    simp only [List.isPrefixOf, Bool.and_eq_true] at h
-    have := isPrefixOf_length ns s h.2
-    simp only [List.length_cons]; omega
+theorem trim_split (l : List UInt8) :
+    ∃ a b, a.all isWs = true ∧ b.all isWs = true ∧ l = a ++ TrimEdge.jsonTrimL l ++ b := by
+  refine ⟨l.takeWhile isWs, (((l.dropWhile isWs).reverse).takeWhile isWs).reverse, ?_, ?_, ?_⟩
+  · exact List.all_takeWhile
+  · rw [List.all_reverse]; exact List.all_takeWhile
+  · unfold TrimEdge.jsonTrimL
+    rw [List.append_assoc, ← List.reverse_append, List.takeWhile_append_dropWhile, List.reverse_reverse,
+      List.takeWhile_append_dropWhile]
 
-theorem literal_app (name : List UInt8) (v : JVal) (s b : List UInt8) (hn : ∀ x ∈ name, isWs x = false)
-    (hb : WsHead b) : Same b (literal name v s) (literal name v (s ++ b)) := by
-  unfold literal
-  rw [isPrefixOf_app name s b hn hb]
-  split
-  · rename_i h
-    rw [List.drop_append_of_le_length (isPrefixOf_length name s h)]
-    exact same_acc _ _ _
-  · exact same_rej _
+theorem containerText_trim_accept (l : List UInt8) (v : JVal) :
+    containerText (TrimEdge.jsonTrimL l) = .accept v ↔ containerText l = .accept v := by
+  obtain ⟨a, b, ha, hb, hl⟩ := trim_split l
+  have := containerText_ws_accept_iff a (TrimEdge.jsonTrimL l) b ha hb v
+  rw [← hl] at this
+  exact this.symm
 
-theorem literal_len {name : List UInt8} {v w : JVal} {s r : List UInt8} (hn : name ≠ [])
-    (h : literal name v s = .acc w r) : r.length < s.length := by
-  unfold literal at h
-  split at h
-  · rename_i hp
-    cases h
-    have := isPrefixOf_length name s hp
-    have : 0 < name.length := List.length_pos_iff.mpr hn
-    rw [List.length_drop]; omega
-  · cases h
+theorem containerText_trim_outside (l : List UInt8) (h : containerText (TrimEdge.jsonTrimL l) = .outside) :
+    containerText l = .outside := by
+  obtain ⟨a, b, ha, hb, hl⟩ := trim_split l
+  have := containerText_ws_outside a (TrimEdge.jsonTrimL l) b ha hb h
+  rw [← hl] at this
+  exact this
 
-theorem true_list : "true".toUTF8.data.toList = [116, 114, 117, 101] := by decide
-theorem false_list : "false".toUTF8.data.toList = [102, 97, 108, 115, 101] := by decide
-theorem null_list : "null".toUTF8.data.toList = [110, 117, 108, 108] := by decide
+theorem containerText_trim_reject (l : List UInt8) (h : containerText l = .reject) :
+    containerText (TrimEdge.jsonTrimL l) = .reject := by
+  obtain ⟨a, b, ha, hb, hl⟩ := trim_split l
+  rw [hl] at h
+  exact containerText_ws_reject a (TrimEdge.jsonTrimL l) b ha hb h
+
+/-! ## 9. the plain equation fails -/
+
+/-- `[[[[["\xFF"` : five unclosed arrays, then a string that is not UTF-8 -/
+def deepOut : List UInt8 := [0x5B, 0x5B, 0x5B, 0x5B, 0x5B, 0x22, 0xFF, 0x22]
+
+/-- fuel `8 + 2`, but reaching the string takes `2 * 5 + 1`: the fuel runs out first -/
+theorem deepOut_reject : containerText deepOut = .reject := by rfl
+/-- ten bytes of white space behind (or in front of) the text buy the missing fuel -/
+theorem deepOut_ws_outside : containerText ([] ++ deepOut ++ List.replicate 10 0x20) = .outside := by rfl
+theorem ws_deepOut_outside : containerText (List.replicate 10 0x20 ++ deepOut ++ []) = .outside := by rfl
+
+/-- `containerText (a ++ s ++ b) = containerText s` does NOT hold for all white space `a`, `b`: the fuel
+    `s.length + 2` of `containerText` is not enough for unclosed nesting (`elements` passes the same text on to
+    `value` with one unit less, so one `[` costs two units), so white space, which adds fuel, can turn `reject` into
+    `outside`.  Nothing else can flip: `containerText_ws_accept_iff`, `containerText_ws_outside`. -/
+theorem containerText_ws_not_eq :
+    ¬ ∀ (a s b : List UInt8), a.all isWs = true → b.all isWs = true → containerText (a ++ s ++ b) = containerText s := by
+  intro h
+  have e := h [] deepOut (List.replicate 10 0x20) rfl (by decide)
+  rw [deepOut_ws_outside, deepOut_reject] at e
+  cases e
+
+/-- the same for trimming: `jsonTrimL` of the padded text is the text -/
+theorem containerText_trim_not_eq :
+    ¬ ∀ l : List UInt8, containerText (TrimEdge.jsonTrimL l) = containerText l := by
+  intro h
+  have e := h (deepOut ++ List.replicate 10 0x20)
+  have e1 : TrimEdge.jsonTrimL (deepOut ++ List.replicate 10 0x20) = deepOut := by decide
+  rw [e1, deepOut_reject] at e
+  have e2 : containerText (deepOut ++ List.replicate 10 0x20) = .outside := deepOut_ws_outside
+  rw [e2] at e
+  cases e
 
 end SJ.SpecTrim
